@@ -471,7 +471,9 @@ def _build_dict(D, entries, r):
     if r % 3 == 1:
         from d42.utils import make_required
         required = [key for key, val, opt in entries if key is not ... and not opt]
-        return make_required(direct(entries, all_optional=True), required)
+        if len(required) == len([1 for key, _, _ in entries if key is not ...]):
+            return make_required(direct(entries, all_optional=True))          # all of them: the default
+        return make_required(direct(entries, all_optional=True), required if r % 2 else set(required))
     if r % 3 == 2 and len(entries) >= 2:
         h = len(entries) // 2
         return direct(entries[:h]) + direct(entries[h:])
